@@ -895,7 +895,14 @@ class Exec:
                                     L2 = fresh(I, 'filtered_len'); q5.pc = q5.pc + [L2 >= 0, L2 <= L]
                                     outs.append((q5, self.new_symlist(q5, 'comp', length=L2)))
                                 else: outs.append((q5, self.new_symlist(q5, 'comp', length=L)))
-                            else: outs.append((q5, VGen(None)))
+                            else:
+                                gen = VGen(None)
+                                # `all(c in "<literal>" for c in X)`: remember the shape so that all() yields the predicate ALLCHARS(X)
+                                el = e.elt
+                                if (not g.ifs and isinstance(it, VStr) and isinstance(el, ast.Compare) and len(el.ops) == 1 and isinstance(el.ops[0], ast.In) and isinstance(el.left, ast.Name)
+                                        and isinstance(g.target, ast.Name) and el.left.id == g.target.id and isinstance(el.comparators[0], ast.Constant) and isinstance(el.comparators[0].value, str)):
+                                    gen.allin = (it, el.comparators[0].value)
+                                outs.append((q5, gen))
                 continue
             if items is None: raise Unsupported(f'comprehension over {it!r} at line {e.lineno}')
             saved = {n.id: q.env.get(n.id) for n in ast.walk(g.target) if isinstance(n, ast.Name)}
